@@ -417,3 +417,32 @@ Theorem C08_reachable_states_wellformed :
   forall h step e rs e' g', run step h (e, g0) = (rs, (e', g')) -> wf g'.
 Proof. intros h step e rs e' g' R. eapply run_wf; [exact wf_g0|exact R]. Qed.
 Print Assumptions C08_reachable_states_wellformed.
+
+(* ---- 11. the steps AFTER a refused attempt (the damage of an instance left in the list shows two steps later) ----
+   FULL, every mode and every kind of failure at every stage (a failing startup callback included), every
+   well-formed state with one running site: the refused attempt leaves the instance list as it was; the next
+   reload (API or SIGUSR1) of a valid configuration succeeds and the list is exactly its instance; the reload
+   after that succeeds too and the list is exactly ITS instance: what a reload restarts - instances[0] - is
+   always the running instance, never one that a failed start left behind.  On the implementation side the
+   harness observes casket.Instances() after every step (length, the configuration each entry was made from,
+   which entries serve: [insts_live], [o_ids] in [frame] / [as_if]). *)
+Theorem C08_two_reloads_after_a_refused_attempt :
+  forall m step e c g r g1 old m1 s1 c1 m2 s2 c2,
+  wf g -> g_htlock g = false -> g_insts g = [old] ->
+  attempt m step e c g = (r, g1) -> r <> ROk ->
+  needs_instance m1 = true -> needs_instance m2 = true ->
+  cfg_valid e c1 = true -> cfg_valid e c2 = true ->
+  g_insts g1 = [old] /\
+  exists g2 n1 g3 n2,
+    attempt m1 s1 e c1 g1 = (ROk, g2) /\ g_insts g2 = [n1] /\ i_cfg n1 = c_id c1 /\
+    attempt m2 s2 e c2 g2 = (ROk, g3) /\ g_insts g3 = [n2] /\ i_cfg n2 = c_id c2.
+Proof. exact two_reloads_after_a_refused_attempt. Qed.
+Print Assumptions C08_two_reloads_after_a_refused_attempt.
+
+Example C08_two_reloads_after_a_refused_attempt_nonvacuous :
+  exists g1 g2,
+    attempt Load 1 [] (mkcfg 1 [] [AEph 1]) g0 = (ROk, g1) /\ wf g1 /\ g_htlock g1 = false /\
+    (exists old, g_insts g1 = [old]) /\
+    attempt Sigusr1 2 [] (mkcfg 2 [ELog 1 50 true; ELog 3 7 false] [AEph 1]) g1 = (RErr, g2) /\
+    cfg_valid [] (mkcfg 3 [] [AEph 1]) = true /\ cfg_valid [] (mkcfg 4 [EOn 1] [AEph 1]) = true.
+Proof. exact two_reloads_witness. Qed.
